@@ -8,7 +8,7 @@
    finish_active / active_finish_needed / extra_element_cost of the six policy classes, the three
    next_value_and_gradient variants and the skeleton of reduce_active), Reduce.v (the statements recorded and the
    scalar loop they denote).
-   _partial: reductions along one dimension, integer-vector indexing, where / either_or, spread, outer_product, dot_product, fixed-size
+   _partial: integer-vector indexing, where / either_or, spread, outer_product, dot_product, fixed-size
    targets and rank > 1 traversal are not in the model; for those the check compares every array statement of its
    catalogue directly with the scalar program it denotes (full Jacobians), which is a test, not a theorem. *)
 From Coq Require Import ZArith List Ring_theory.
@@ -58,12 +58,28 @@ Proof.
   intros minf pinf ofnat t u0 k es Hf.
   exact (reduce_run_correct F minf pinf ofnat Rth Hdiv Hlit1 t u0 (reduce_policy k) es (generated_policies_wf k) Hf).
 Qed.
+
+(* the same reductions along one dimension of an active array (reduce_dimension): for every strip (result index r,
+   elements es) the temporary `total` (index tt) is reduced and assigned to the result element.  The forward sweep of
+   everything recorded sets, strip after strip, tt and r to the tangent of that strip's scalar loop and nothing else;
+   the values stored are those of the loops.  No element may read tt or a result index (the result is resized first) *)
+Theorem C03_reductions_along_a_dimension : forall (minf pinf : T) (ofnat : nat -> T) tt u0 k (strips : list (nat * list (expr (T:=T)))),
+  (forall rs, In rs strips -> Forall (fresh tt) (snd rs)) ->
+  (forall rs rs', In rs strips -> In rs' strips -> Forall (fresh (fst rs)) (snd rs')) ->
+  (forall i, fwd_sweep O (reduce_dim_tape F minf pinf ofnat tt (reduce_policy k) strips) u0 i = dim_result F minf pinf ofnat tt (reduce_policy k) u0 strips i) /\
+  reduce_dim_values F minf pinf ofnat tt (reduce_policy k) strips =
+    map (fun rs => (fst rs, fst (reduce_spec F minf pinf ofnat (reduce_policy k) (xs_of F u0 (snd rs))))) strips.
+Proof.
+  intros minf pinf ofnat tt u0 k strips H1 H2.
+  exact (reduce_dim_correct F minf pinf ofnat Rth Hdiv Hlit1 tt (reduce_policy k) u0 strips (generated_policies_wf k) H1 H2).
+Qed.
 End AnyRing.
 Print Assumptions C03_element_partial.
 Print Assumptions C03_elementwise_statement_partial.
 Print Assumptions C03_reverse_partial.
 
 Print Assumptions C03_reductions.
+Print Assumptions C03_reductions_along_a_dimension.
 
 (* the generated reduction policies: operations left pending by the accumulation are closed by a finish that is
    actually called (active_finish_needed), and extra_element_cost covers what the accumulation pushes beyond the
